@@ -85,7 +85,10 @@ def shard_downsample(arg):
                         if N >= 2 and len(ids) == N and N < count:
                             for k, i in enumerate(ids):
                                 ideal = k * (count - 1) / (N - 1)
-                                if abs(i - ideal) >= 1.0:
+                                # (closed bound: numpy's linspace may land
+                                # one ulp below an integer ideal, e.g.
+                                # count=31, N=23, k=11 -> 14.999999999999998)
+                                if abs(i - ideal) > 1.0 + 1e-9:
                                     msgs.append("index %d far from evenly "
                                                 "spaced %.3f" % (i, ideal))
                                     break
@@ -111,8 +114,8 @@ def _rec(acc, case, msgs, label, nontrivial):
 # -------------------------------------------------------------- motion filter
 MF_LEN = (0.0, 1.0, 2.0)
 MF_ROT = (0.0, 45.0, 90.0)
-MF_D = (0.0, 1.0, 1.5, 2.0)
-MF_A = (0.0, 30.0, 45.0, 100.0)
+MF_D = (0.0, 1.0, 1.5, 2.0, 1.00001, 1.99999)
+MF_A = (0.0, 30.0, 45.0, 100.0, 45.001, 89.999)
 
 
 def mf_traj(steps):
@@ -261,6 +264,13 @@ def run_split(case):
     kind, thr, mode = case["kind"], case["thr"], case["mode"]
     timed = kind != "distance_path"
     t = common.make_traj(Rs, ps, ts if timed else None, mode)
+    if case.get("pre") == "split+scale":
+        # the same object was split before and then rescaled: the second
+        # split must follow the *current* geometry
+        t.split_distance_gaps(thr)
+        t.distances
+        t.scale(2.0)
+        ps = [2.0 * p for p in ps]
     snap = common.snapshot(t)
     if kind == "time":
         parts = t.split_time_gaps(thr)
@@ -318,6 +328,10 @@ def shard_split(arg):
                         "steps": [list(s) for s in steps], "mode": mode}
                 msgs, nt = run_split(case)
                 _rec(acc, case, msgs, "split:" + kind, nt)
+                if kind in ("distance", "distance_path", "speed"):
+                    case = dict(case, pre="split+scale")
+                    msgs, nt = run_split(case)
+                    _rec(acc, case, msgs, "split-after-rescale:" + kind, nt)
     return acc
 
 
@@ -385,7 +399,7 @@ def merge_assignments(nslots, ntraj):
 
 def run(ctx):
     acc = pmap_acc(ctx, __name__, "shard_downsample",
-                   shard(range(1, 15), 14))
+                   shard(range(1, ctx.pick(41, 121)), 40))
     ml = ctx.pick(4, 5)
     mseqs = [s for k in range(1, ml + 1) for s in itertools.product(
         itertools.product(range(3), range(3)), repeat=k)]
@@ -404,7 +418,7 @@ def run(ctx):
     acc.merge(pmap_acc(ctx, __name__, "shard_merge", mjobs))
     acc.counters["states"] = acc.counters["evaluations"]
     acc.rule = (
-        "downsample: all (count 1..14, N 1..count+2) x 4 storage/cache modes "
+        "downsample: all (count 1..40 (120), N 1..count+2) x 4 storage/cache modes "
         "x timed/untimed; motion filter: all sequences of <= %d steps over "
         "lengths {0,1,2} x rotations {0,45,90 deg} x distance thresholds %s x "
         "angle thresholds %s; crop: n 1..6 x all (start,end) from stamps, "
